@@ -17,13 +17,15 @@ RULE = (
     "stream nest (random): programs over text/output/assign/capture/if/for/with/increment/decrement/include/render/"
     "macro/call in random nesting order (depth<=4) over names a,b,c (+now,today,partial,forloop,size,args), three "
     "partial templates, the four global layers populated independently, reads of paths of length 1..4, both string "
-    "flags, default and strict undefined, small context_depth_limit in 10%. "
+    "flags, default and strict undefined, small context_depth_limit in 10%; 30% of the cases (half of the path cases) "
+    "go through render_async (get_async / get_item_async are separate code). "
     "stream order_tablerow (exhaustive, engine only): the tablerow variable and tablerowloop over every subset of "
     "the five outer layers. stream path (exhaustive): 17 objects x 21 keys (names, size/first/last, indexes -4..5, bool, nested variable "
     "paths, quoted and bracketed forms) x 4 flag settings x default/strict undefined, plus random paths of length "
-    "2..4 over random nested data. Non-trivial: order - at least two layers bound; nest - at least two binding "
-    "constructs nested or a partial used, and the render completed; path - the path has >= 2 segments and the "
-    "object is a container or a string."
+    "2..4 over random nested data. Non-trivial: order - at least two layers bound (for now/today the built-in layer "
+    "counts); nest - the render completed and the program uses at least three kinds of binding construct (assign, "
+    "capture, for, with, include, render, call, increment, decrement); path - the object is a mapping, a list or a "
+    "string; paths - some read has >= 2 segments and not every read printed nothing."
 )
 TRUSTED_BASE = [
     "Lean 4.33 kernel; axioms subset of {propext, Classical.choice, Quot.sound}",
@@ -43,7 +45,7 @@ ASSUMPTIONS = [
 ]
 MANIFEST = {
     "technique": "Lean 4 proof (chain-lookup theorems, functional induction over six mutually recursive render functions for push/pop balance, get_item against a declarative table) + differential correspondence with an independent reference interpreter",
-    "text": "Theorems lookup_order, lookup_order_chain, assign_hits_locals, capture_hits_locals, scope_balanced (+_block, _partial), block_names_vanish, include_shares_scope, get_item_spec, path_resolution, missing_root_is_undefined, missing_step_is_undefined, strict_only_undefined_error hold for every state, nesting depth, template set and path; the model is tied to the code by exhaustive layer-subset and object x key streams and random nested programs.",
+    "text": "Theorems lookup_order, lookup_order_chain, assign_hits_locals, capture_hits_locals, scope_balanced (+_block, _partial), block_names_vanish, include_shares_scope, get_item_spec, path_resolution, missing_root_is_undefined, missing_step_is_undefined, strict_only_undefined_error, eval_total_default hold for every state, nesting depth, template set and path; the model is tied to the code by exhaustive layer-subset and object x key streams and random nested programs.",
     "note": "Trusted: Lean kernel, the hand model of RenderContext / path resolution / the binding tags (STRICT mode), the harness and its printer/generators, CPython container semantics. Filters, loop options, tablerow and non-strict modes are owned by other properties.",
 }
 
@@ -178,6 +180,8 @@ class NestStream(Stream):
         t += sorted(scopegen.kinds_of(case) & {"for", "with", "include", "render", "macro", "call", "capture"})
         if case.get("strict"):
             t.append("strict")
+        if case.get("async"):
+            t.append("async")
         return t
 
     def shrink_candidates(self, case):
@@ -278,7 +282,8 @@ class PathStream(Stream):
         else:
             data["o"] = obj
         main = [["text", "<"], ["out", ["path", ["n", "o"], tail], case.get("quote", 0)], ["text", ">"]]
-        return {"main": main, "partials": {}, "args": data, "strict": case["strict"], "sseq": case["sseq"], "sfl": case["sfl"]}
+        return {"main": main, "partials": {}, "args": data, "strict": case["strict"], "sseq": case["sseq"], "sfl": case["sfl"],
+                "async": (case["obj"] + case["key"]) % 2 == 1}
 
     def impl(self, case):
         return scopeprog.run_impl(self.prog(case))
@@ -315,7 +320,7 @@ class PathRandomStream(Stream):
             reads = []
             for _ in range(6):
                 reads += g.read()
-            out.append({"main": reads, "partials": {}, "args": data, "strict": False, "sseq": rng.chance(40), "sfl": rng.chance(40)})
+            out.append({"main": reads, "partials": {}, "args": data, "strict": False, "sseq": rng.chance(40), "sfl": rng.chance(40), "async": rng.chance(30)})
         return out
 
     def impl(self, case):
